@@ -1,7 +1,7 @@
 /-
 Model M13 (part) — restore of one file's contents and destination path joining
 (`crates/core/src/commands/restore.rs`: `RestorePlan::add_file`, `restore_contents` as repaired by the sparse fix
-(`file_truncate`), the path check added to `collect_and_prepare` by fix 9ba0b0c;
+(`file_truncate`), the path check added to `collect_and_prepare` by fix a7b2d5a;
 `crates/core/src/backend/local_destination.rs`: `path`, `get_matching_file`, `set_length`, `write_at`).  Import-free,
 executable.  The merge-walk and the pack bookkeeping of `RestorePlan` are in `Model/RestoreWalk.lean`.
 
